@@ -11,6 +11,7 @@ import AriVerif.Conc.Data
 import AriVerif.Framing
 import AriVerif.Sender
 import AriVerif.Dispatch
+import AriVerif.Conc.MetaSrv
 /-!
 Line-protocol driver: one operation per input line, one answer line per operation.
 Every string travels as lower-case hex of its UTF-8 bytes (`-` = empty).
@@ -234,6 +235,7 @@ def stepLine (line : String) : String :=
 
 structure DriverState where
   data : Option DState := none
+  metaS : Option MState := none
 
 def showGEff : GEff → String
   | .enqueue l => "enq:" ++ Hex.ofStr l
@@ -302,8 +304,64 @@ def cosimChunk (st : DState) (toks : List String) : DState × String :=
           | none => (st', "ok")
   | _ => (st, "bad-op")
 
+def showMEff : MEff → String
+  | .enqueue l => "enq:" ++ Hex.ofStr l
+  | .submit n => "sub:" ++ toString n
+  | .adapterBegin c => "ab:" ++ Hex.ofStr (" ".intercalate ((c.splitOn " ").filter (· ≠ "")))
+  | .adapterEnd c => "ae:" ++ c
+  | .handlerExc => "handler"
+  | .sent b => "sent:" ++ Hex.ofStr b
+
+def parseMOp (ts : List String) : Option MOp :=
+  match ts with
+  | ["tstart"] => some .threadStart
+  | ["deliver", c] => (Hex.toStr? c).map .deliver
+  | ["recv"] => some .recv
+  | ["put"] => some .put
+  | ["get"] => some .get
+  | ["send"] => some .send
+  | ["start"] => some .taskStart
+  | ["abegin"] => some .adapterBegin
+  | "aend" :: rest => match parseOutcomes rest [] with
+    | some [o] => some (.adapterEnd o)
+    | _ => none
+  | _ => none
+
+def metaChunk (st : MState) (toks : List String) : MState × String :=
+  let parts := (toks.foldl (fun (acc : List (List String)) t =>
+    if t = ";" then [] :: acc else match acc with
+      | cur :: rest => (t :: cur) :: rest
+      | [] => [[t]]) [[]]).reverse.map List.reverse
+  match parts with
+  | [(tid :: opToks), effs, en, [snap]] =>
+    match parseMOp opToks with
+    | none => (st, "bad-op")
+    | some op =>
+      match mstep st {} tid op with
+      | none => (st, "mismatch step-not-enabled-in-model tid=" ++ tid ++ " op=" ++ " ".intercalate opToks)
+      | some (st', meffs) =>
+        let me := meffs.map showMEff
+        let men := ",".intercalate (menabled st')
+        let ien := match en with | [e] => e | _ => ""
+        if me != effs then (st', "mismatch effects model=" ++ " ".intercalate me ++ " impl=" ++ " ".intercalate effs)
+        else if men != ien then (st', "mismatch enabled model=" ++ men ++ " impl=" ++ ien)
+        else if Hex.ofStr (msnap st') != snap then (st', "mismatch snapshot model=" ++ msnap st' ++ " impl=" ++ (Hex.toStr? snap).getD "?")
+        else (st', "ok")
+  | _ => (st, "bad-op")
+
 def stepState (ds : DriverState) (line : String) : DriverState × String :=
   match (line.splitOn " ").filter (· ≠ "") with
+  | ["cosim", "meta", n, exh] =>
+    let hb (t : String) : Option Bool := if t = "t" then some true else if t = "f" then some false else none
+    match n.toNat? with
+    | some k =>
+      let cfg : SrvCfg := { kind := .metaK, excHandler := hb exh, ioHandler := none, keepAlive := some 0 }
+      ({ ds with metaS := some { cfg := cfg, pool := { n := k }, rst := { keepAlive := (0, 0) } } }, "ok")
+    | none => (ds, "bad-op")
+  | "km" :: rest =>
+    match ds.metaS with
+    | some st => let (st', ans) := metaChunk st rest; ({ ds with metaS := some st' }, ans)
+    | none => (ds, "bad-op")
   | ["cosim", "data", n] =>
     match n.toNat? with
     | some k => ({ ds with data := some { poolN := k } }, "ok")
